@@ -717,8 +717,8 @@ int lowest_runnable(int except) {
         if (o->id != except && o->state == T_RUNNABLE) return o->id;
     return -1;
 }
-static void do_switch(Task &t, int tgt, bool wait) {
-    g_sim.recorded.push_back({t.id, t.cur_op, t.ev, tgt});
+static void do_switch(Task &t, int tgt, bool wait, bool record = true) {
+    if (record) g_sim.recorded.push_back({t.id, t.cur_op, t.ev, tgt});
     sim_log(LOG_SWITCH, ((uint64_t)t.id << 32) | (uint32_t)t.cur_op, ((uint64_t)t.ev << 8) | (uint32_t)tgt);
     g_sim.running = tgt;
     sem_post(&g_sim.tasks[tgt]->sem);
@@ -735,6 +735,15 @@ static void event_slow(Task &t) {
     t.countdown = g_sim.strat->arm(t);
     t.in_op = save;
     errno = e;
+}
+// a switch decided by the workload itself (not by the strategy): deterministic given the state, so it is logged
+// but not part of the recorded schedule
+void sim_switch_to(Task &t, int target) {
+    if (target < 0 || target == t.id || !runnable(target)) return;
+    bool save = t.in_op;
+    t.in_op = false;
+    do_switch(t, target, true, false);
+    t.in_op = save;
 }
 // the running task cannot continue: hand the processor to somebody else (or to the simulator)
 static void forced_switch(Task &t, bool final) {
